@@ -75,15 +75,15 @@ def gen_slow(seed, k):
     sc = e2e.Scenario(f"slow{k}")
     P = rng.choice([250, 400]); K = rng.choice([None, 1, 2, 3]); G = rng.choice([0, 300, 300])
     if k == 0: P, K, G = 300, 2, 300
-    kinds = ["fast", "long_ok", "hang_exit", "hang_default", "hang_ign", "hang_late"] if K else ["fast", "long_ok", "long_ok"]
-    n = rng.randrange(2, 5)
+    kinds = ["fast", "long_ok", "hang_exit", "hang_default", "hang_ign", "hang_late", "hang_out"] if K else ["fast", "long_ok", "long_ok"]
+    n = rng.randrange(2, 5) if k else 5
     tests = []
     # an override gives one binary its own, different slow-timeout
     ovr = rng.random() < 0.4 and K is not None
     P2, K2, G2 = (rng.choice([200, 500]), rng.choice([1, 2]), rng.choice([0, 250])) if ovr else (P, K, G)
     for i in range(n):
         b, pkg = BINS[i % 3]
-        kind = rng.choice(kinds) if k else ["fast", "hang_ign", "long_ok", "hang_exit"][i % 4]
+        kind = rng.choice(kinds) if k else ["fast", "hang_ign", "long_ok", "hang_exit", "hang_out"][i % 5]
         p, kk, g = (P2, K2, G2) if (ovr and b == "t_three") else (P, K, G)
         name = f"{kind}_{i}"
         if kind == "fast": acts = ["work:40", "exit:0"]; dur = 40
@@ -93,8 +93,11 @@ def gen_slow(seed, k):
         elif kind == "hang_exit": acts = ["onsig:15:0:0", "hang"]; dur = None
         elif kind == "hang_default": acts = ["hang"]; dur = None
         elif kind == "hang_ign": acts = ["ignore:15", "child:20000", "hang"]; dur = None
+        elif kind == "hang_out":
+            # writes its last words when told to terminate: they must be captured although the attempt ends as a timeout
+            acts = [f"outn:out:{i}:3000:4096:0:bin", f"onsigw:15:0:{100 + i}:{rng.choice([10, 5000, 150000])}", "hang"]; dur = None
         else: acts = [f"onsig:15:7:{g // 2}", "hang"]; dur = None
-        tests.append({"bin": b, "pkg": pkg, "name": name, "kind": kind, "dur": dur, "P": p, "K": kk, "G": g})
+        tests.append({"bin": b, "pkg": pkg, "name": name, "kind": kind, "dur": dur, "P": p, "K": kk, "G": g, "acts": acts})
         sc.test(b, name, acts)
     extra = f'''
 [[profile.default.overrides]]
@@ -134,7 +137,7 @@ def mon_slow(sc, r):
         if res != "T": V("result", f"hanging test {t['name']} (terminate-after {K} x {P} ms) is reported {res}, expected a timeout")
         if not slowflag: V("slow-flag", f"hanging test {t['name']} is not marked slow")
         first = "KILL" if G == 0 else "TERM"
-        if t["kind"] in ("hang_exit", "hang_ign", "hang_late"):
+        if t["kind"] in ("hang_exit", "hang_ign", "hang_late", "hang_out"):
             if first == "TERM":
                 if [s for (s, _) in sigs] != [15]: V("signal", f"test {t['name']}: received signals {sigs}, expected exactly one SIGTERM (grace {G} ms)")
                 else:
@@ -145,7 +148,14 @@ def mon_slow(sc, r):
                 if sigs: V("signal", f"test {t['name']}: grace period 0 but it received catchable signals {sigs} (expected SIGKILL at once)")
         # when did it die
         died_at = taken
-        lo, hi = {"hang_exit": (deadline, deadline), "hang_default": (deadline, deadline), "hang_late": (deadline + G // 2, deadline + G // 2), "hang_ign": (deadline + G, deadline + G)}[t["kind"]]
+        if t["kind"] == "hang_out" and G != 0:
+            import xxh64
+            f = t["acts"][1].split(":"); first = t["acts"][0].split(":")
+            data = xxh64.pattern(int(first[2]), int(first[3]), "bin") + xxh64.pattern(int(f[3]), int(f[4]), "bin")
+            mcap = re.match(r"split:(\d+):([0-9a-f]+):", ":".join(st[5:]))
+            if not mcap or int(mcap.group(1)) != len(data) or int(mcap.group(2), 16) != xxh64.xxh64(data):
+                V("capture", f"test {t['name']}: wrote {len(data)} bytes in all ({f[4]} of them on SIGTERM, just before exiting); captured {mcap.group(1) if mcap else None} bytes" + ("" if not mcap or int(mcap.group(1)) != len(data) else " with different content"))
+        lo, hi = {"hang_exit": (deadline, deadline), "hang_default": (deadline, deadline), "hang_out": (deadline, deadline), "hang_late": (deadline + G // 2, deadline + G // 2), "hang_ign": (deadline + G, deadline + G)}[t["kind"]]
         if G == 0: lo = hi = deadline
         if died_at < lo - SLACK_LO: V("early", f"test {t['name']} ({t['kind']}): reported duration {died_at} ms, cannot end before {lo} ms")
         if died_at > hi + SLACK_HI: V("late", f"test {t['name']} ({t['kind']}): reported duration {died_at} ms, expected about {hi} ms (deadline {deadline} + grace {G})")
@@ -534,7 +544,7 @@ def mon_cancel(sc, r):
 FAMILIES = {}
 
 
-def run_family(name, seed, tier, n_quick, n_thorough, jobs=5):
+def run_family(name, seed, tier, n_quick, n_thorough, jobs=5, kinds=None):
     gen, mons = FAMILIES[name]
     broken = []
     if not build(broken): return {"e2e_runs": 0, "e2e_tests": 0, "e2e_processes": 0, "dist": {}, "violations": [], "broken": broken, "samples": [], "rule": ""}
@@ -544,7 +554,7 @@ def run_family(name, seed, tier, n_quick, n_thorough, jobs=5):
     violations = []; dist = {}
     for sc, r in res:
         if getattr(r, "error", None): broken.append(f"scenario {sc.name}: {r.error}"); continue
-        for m in mons: violations += m(sc, r)
+        for m in mons: violations += [v for v in m(sc, r) if kinds is None or v["kind"] in kinds or v["kind"] == "machinery"]
         for t in sc.meta["tests"]: dist[f"e2e:{name}:{t['kind']}"] = dist.get(f"e2e:{name}:{t['kind']}", 0) + 1
         for s in sc.signals: dist[f"e2e:{name}:signal:{s[3]}"] = dist.get(f"e2e:{name}:signal:{s[3]}", 0) + 1
     samples = [{"scenario": sc.name, "tests": [(t["bin"], t["name"], t["kind"]) for t in sc.meta["tests"]], "signals": sc.signals, "exit": r.exit, "wall_ms": int(r.wall_ms)} for sc, r in res[:2]]
